@@ -542,6 +542,95 @@ fn respell_division_cases(seed: u64, count: usize) -> Vec<Case> {
     }
     out
 }
+/// Twin models in which a coefficient is spelled as a DIFFERENCE (or sum) of terms in the SAME variable (`3x - x`,
+/// `5x - (x + 2x)`, `2(x + y) - x - y`, `x + x`) in one twin and as the collected literal (`2x`, `x + y`) in the other,
+/// in a bound-giving affine row.  The bound inference collects coefficients itself (`AffineForm`): the inferred ranges
+/// and published domains of the twins must be the same, and so must acceptance and rows (seeded change C10-17: a
+/// repeated variable under a binary minus added instead of subtracted).  Deterministic.
+fn respell_difference_cases() -> Vec<Case> {
+    use rooc::{Comparison, OptimizationType, VariableType};
+    let num = |v: f64| Exp::Number(v);
+    let var = |n: &str| Exp::Variable(n.into());
+    let bx = |op: BinOp, l: Exp, rr: Exp| Exp::BinOp(op, Box::new(l), Box::new(rr));
+    let mul = |k: f64, e: Exp| Exp::BinOp(BinOp::Mul, Box::new(Exp::Number(k)), Box::new(e));
+    let ds = vec![
+        gen_model::VarDecl { name: "x".into(), ty: VariableType::Real(f64::NEG_INFINITY, f64::INFINITY) },
+        gen_model::VarDecl { name: "y".into(), ty: VariableType::NonNegativeReal(0.0, f64::INFINITY) },
+    ];
+    let mut out = vec![];
+    let mut i = 0usize;
+    for (k1, k2) in [(3.0, 1.0), (5.0, 3.0), (1.0, 3.0), (4.0, 1.0), (2.0, 4.0), (6.0, 2.0)] {
+        let kd: f64 = k1 - k2;
+        for shape in 0..5usize {
+            for cmp in [Comparison::LessOrEqual, Comparison::GreaterOrEqual] {
+                let b = if matches!(cmp, Comparison::LessOrEqual) { 4.0 } else { -4.0 } * if kd < 0.0 { -1.0 } else { 1.0 };
+                // (collected, spelled)
+                let (l1, l2): (Exp, Exp) = match shape {
+                    0 => (mul(kd, var("x")), bx(BinOp::Sub, mul(k1, var("x")), mul(k2, var("x")))),
+                    1 => (bx(BinOp::Add, mul(kd, var("x")), var("y")), bx(BinOp::Add, bx(BinOp::Sub, mul(k1, var("x")), mul(k2, var("x"))), var("y"))),
+                    2 => (mul(kd, var("x")), bx(BinOp::Sub, mul(k1, var("x")), bx(BinOp::Add, var("x"), mul(k2 - 1.0, var("x"))))),
+                    3 => (bx(BinOp::Add, mul(kd, var("x")), mul(kd, var("y"))), bx(BinOp::Sub, bx(BinOp::Sub, mul(k1, bx(BinOp::Add, var("x"), var("y"))), mul(k2, var("x"))), mul(k2, var("y")))),
+                    _ => (mul(k1 + k2, var("x")), bx(BinOp::Add, mul(k1, var("x")), mul(k2, var("x")))),
+                };
+                let mk = |l: Exp| -> Model {
+                    let cons = vec![Constraint::new(l, cmp.clone(), num(b), String::new()),
+                                    Constraint::new(Exp::Abs(Box::new(var("x"))), Comparison::LessOrEqual, num(50.0), String::new())];
+                    gen_model::build(if matches!(cmp, Comparison::LessOrEqual) == (kd > 0.0 || shape == 4) { OptimizationType::Max } else { OptimizationType::Min }, var("x"), cons, &ds)
+                };
+                let (m1, m2) = (mk(l1), mk(l2));
+                let (a, bb) = (Linearizer::linearize(m1.clone()), Linearizer::linearize(m2.clone()));
+                // the published domain carries the number of OCCURRENCES of the variable, which legitimately differs between
+                // the spellings: compare ranges and domain types only
+                let strip = |(b, d): (String, String)| -> (String, String) {
+                    let mut o = String::new();
+                    let cs: Vec<char> = d.chars().collect();
+                    let mut j = 0;
+                    while j < cs.len() {
+                        if cs[j] == ')' && j + 2 < cs.len() && cs[j + 1] == ' ' && cs[j + 2].is_ascii_digit() {
+                            let mut e = j + 2;
+                            while e < cs.len() && cs[e].is_ascii_digit() { e += 1; }
+                            if e < cs.len() && cs[e] == ')' { o.push(')'); j = e; continue; }
+                        }
+                        o.push(cs[j]); j += 1;
+                    }
+                    (b, o)
+                };
+                let (b1, b2) = (strip(crate::props::c01::bounds_sx(&m1)), strip(crate::props::c01::bounds_sx(&m2)));
+                let mut c = Case::default();
+                c.show = format!("{}  ~~coefficient respelled as a difference~~>  {}", format!("{}", m1).replace('\n', " ; "), format!("{}", m2).replace('\n', " ; "));
+                c.tags = vec!["respell".into(), "respell-difference".into(), format!("respell-difference-shape-{}", shape)];
+                c.nontrivial = true;
+                let err = |e: &rooc::LinearizationError| crate::props::c01::lin_error(e);
+                if b1 != b2 {
+                    c.imp = "(bounds-differ)".into();
+                    c.sig = Some("respelling-changes-bounds".into());
+                    c.impl_violation = Some(format!("a coefficient spelled as a difference of terms in one variable vs the collected literal: inferred ranges / published domains differ: {} {}  vs  {} {}", b1.0, b1.1, b2.0, b2.1));
+                } else {
+                    match (&a, &bb) {
+                        (Ok(la), Ok(lb)) => {
+                            c.imp = "(both-compile)".into();
+                            if sx::lin_model(la) == sx::lin_model(lb) { c.tags.push("respell-identical-output".into()); }
+                            else {
+                                c.tags.push("respell-different-output".into());
+                                c.oracle = format!("py:{} {} {}", if i % 2 == 0 { "c01" } else { "c02" }, sx::model(&m1), sx::lin_model(lb));
+                            }
+                        }
+                        (Err(x), Err(y)) if err(x) == err(y) => { c.imp = format!("(both-rejected {})", err(x)); c.tags.push("respell-both-rejected".into()); }
+                        (x, y) => {
+                            c.imp = format!("(acceptance-differs {} {})", x.is_ok(), y.is_ok());
+                            c.sig = Some("respelling-changes-acceptance".into());
+                            let e = |z: &Result<rooc::LinearModel, rooc::LinearizationError>| z.as_ref().err().map(|e| err(e)).unwrap_or("(ok)".into());
+                            c.impl_violation = Some(format!("a coefficient spelled as a difference vs the collected literal: {} vs {}", e(x), e(y)));
+                        }
+                    }
+                }
+                out.push(c);
+                i += 1;
+            }
+        }
+    }
+    out
+}
 fn r_chance(i: usize, m: usize) -> bool { i % m == 1 }
 
 /// An undefined division NESTED in the numerator of another division (directly, or as an operand of + - * neg abs
@@ -867,6 +956,7 @@ pub fn generate(seed: u64, n: usize, thorough: bool, _corpus: Option<&str>) -> V
     cases.extend(respell_block_cases(&mut r, if thorough { 600 } else { 60 }));
     cases.extend(respell_position_cases(&mut r, if thorough { 1600 } else { 160 }));
     cases.extend(respell_division_cases(seed, if thorough { 600 } else { 60 }));
+    cases.extend(respell_difference_cases());
     cases.extend(nested_undefined_cases(seed, if thorough { 576 } else { 144 }));
     cases.extend(respell_negation_cases(seed, if thorough { 480 } else { 60 }));
     cases.extend(respell_identity_cases(seed, if thorough { 800 } else { 120 }));
